@@ -94,6 +94,13 @@ func calleeMatches(full, pat string) bool {
 	if full == pat {
 		return true
 	}
+	// instantiations of generic functions match under the generic name: errors.AsType[*os/exec.ExitError] ~ AsType
+	if i := strings.Index(full, "["); i > 0 && strings.HasSuffix(full, "]") {
+		full = full[:i]
+		if full == pat {
+			return true
+		}
+	}
 	short := strings.ReplaceAll(full, modulePath+"/internal/", "")
 	short = strings.ReplaceAll(short, modulePath+"/", "")
 	return short == pat || strings.HasSuffix(full, "."+pat) || strings.HasSuffix(full, ")."+pat)
